@@ -381,6 +381,26 @@ func loadReal(c *core.Ctx) (*gengotypes.Universe, []string) {
 }
 
 // a second pinned corpus (thorough): std packages gengo itself does not reach
+// the quick tier loads a small corpus that reaches GOROOT-vendored packages (net -> vendor/golang.org/x/net/...)
+const stdSmallSource = `package corp
+
+import _ "net"
+`
+
+var stdSmallDir string
+
+func loadStdSmall(c *core.Ctx) (*gengotypes.Universe, []string) {
+	if stdSmallDir == "" {
+		stdSmallDir = pipe.TempDir("c13net")
+		_ = pipe.WriteTree(stdSmallDir, pipe.Tree{"go.mod": pipe.GoMod("x.io/corp", "1.24"), "corp.go": stdSmallSource})
+	}
+	save := stdDir
+	stdDir = stdSmallDir
+	u, paths := loadStd(c)
+	stdDir = save
+	return u, paths
+}
+
 const stdCorpusSource = `package corp
 
 import (
@@ -454,6 +474,9 @@ func run(c *core.Ctx) {
 		if stdDir != "" {
 			os.RemoveAll(stdDir)
 		}
+		if stdSmallDir != "" {
+			os.RemoveAll(stdSmallDir)
+		}
 	}()
 	c.Bound("synthetic_feature_bits", featureNames)
 	c.Bound("synthetic_packages", 1<<nBits)
@@ -489,6 +512,7 @@ func run(c *core.Ctx) {
 	} else {
 		jobs = []job{{"synthetic", 0, nil}, {"real", 0, nil}}
 	}
+	jobs = append(jobs, job{"std-small", 0, nil})
 	c.Bound("universe_loads", len(jobs))
 	nReal := 0
 	for _, j := range jobs {
@@ -504,6 +528,9 @@ func run(c *core.Ctx) {
 		case "std":
 			u, paths = loadStd(c)
 			c.Bound("std_corpus_packages", len(paths))
+		case "std-small":
+			u, paths = loadStdSmall(c)
+			c.Bound("std_small_corpus_packages_closure_of_net", len(paths))
 		default:
 			u, paths = loadReal(c)
 			nReal = len(paths)
@@ -542,6 +569,8 @@ func replay(c *core.Ctx, raw json.RawMessage) {
 	case "std":
 		u, paths = loadStd(c)
 		defer os.RemoveAll(stdDir)
+	case "std-small":
+		u, paths = loadStdSmall(c)
 	default:
 		u, paths = loadReal(c)
 	}
